@@ -177,7 +177,11 @@ func genValue(r *scen.Rand, a Alpha, av Avoid) scen.Value {
 	if t > 0 && r.Intn(t) < a.Structured {
 		return structuredValue(r)
 	}
-	return scen.Str(genString(r, a, av))
+	v := scen.Str(genString(r, a, av))
+	if r.Bool(0.12) {
+		v.K = "ds" // the same text as a value of a defined string type
+	}
+	return v
 }
 
 // standalone values may contain anything, carriage returns included
